@@ -346,6 +346,71 @@ func (e *Env) term(x *Sx) string {
 			e.errf("same: unknown table/component %s", name)
 		}
 		return and(cs...)
+	case "samerow":
+		// (samerow T S0 S1 key... [:except Col...]) : the row of table T at the key has the same presence and the
+		// same value in every column (nested timestamp parts included) in both states, except the listed
+		// top-level columns. Indexes, sequences and ghost sums are not row columns.
+		t := e.s.Spec.Tables[x.List[1].Atom]
+		if t == nil {
+			e.errf("samerow: unknown table %s", x.List[1])
+		}
+		s0, s1 := e.stateOf(x.List[2]), e.stateOf(x.List[3])
+		var ks []string
+		except := map[string]bool{}
+		i := 4
+		for ; i < len(x.List) && x.List[i].Atom != ":except"; i++ {
+			ks = append(ks, e.term(x.List[i]))
+		}
+		for i++; i < len(x.List); i++ {
+			except[x.List[i].Atom] = true
+		}
+		key := mkKey(ks)
+		pfx := t.Name + "."
+		have := map[string]bool{}
+		for _, cn := range e.s.Spec.compsOfTable(t.Name) {
+			have[cn] = true
+		}
+		used := map[string]bool{}
+		var cs []string
+		for _, cn := range e.s.Spec.compsOfTable(t.Name) {
+			c := e.s.Spec.Comps[cn]
+			rest := strings.TrimPrefix(cn, pfx)
+			if c.Ghost || !strings.HasPrefix(cn, pfx) || strings.HasPrefix(rest, "by") || rest == "seq" {
+				continue
+			}
+			col := rest
+			if j := strings.Index(rest, "."); j >= 0 {
+				col = rest[:j]
+			}
+			if except[col] {
+				used[col] = true
+				continue
+			}
+			a1, a0 := fmt.Sprintf("(select %s %s)", e.s.comp(s1, cn), key), fmt.Sprintf("(select %s %s)", e.s.comp(s0, cn), key)
+			// a nested part only has a meaning when every enclosing optional message is set
+			var guards []string
+			for anc := cn; ; {
+				j := strings.LastIndex(anc, ".")
+				if j <= len(pfx)-1 {
+					break
+				}
+				anc = anc[:j]
+				if have[anc+".set"] && anc+".set" != cn {
+					guards = append(guards, fmt.Sprintf("(select %s %s)", e.s.comp(s0, anc+".set"), key))
+				}
+			}
+			if len(guards) > 0 {
+				cs = append(cs, implies(and(guards...), eq(a1, a0)))
+				continue
+			}
+			cs = append(cs, eq(a1, a0))
+		}
+		for c := range except {
+			if !used[c] {
+				e.errf("samerow: table %s has no column %s", t.Name, c)
+			}
+		}
+		return and(cs...)
 	case "iter.n":
 		it, _ := e.iterOf(x.List[1])
 		return it.N
